@@ -167,7 +167,9 @@ def operand_tokens(rng, spec, labels, consts, first):
     """tokens of one operand for an operand descriptor"""
     kind = spec[0]
     if kind == "reg":
-        return [tok("id", spec[1] if rng.random() < 0.9 else rng.choice(REGS), first)]
+        t = tok("id", spec[1] if rng.random() < 0.9 else rng.choice(REGS), first)
+        t["lit"] = True
+        return [t]
     if kind == "sub":
         sb = spec[1]
         c = rng.random()
@@ -175,7 +177,9 @@ def operand_tokens(rng, spec, labels, consts, first):
         if subrule_imm and c < 0.25:
             return [tok("op", "%", first), num_tok(rng, rng.randrange(0, 1 << sb["size"]) if rng.random() < 0.8
                                                     else (1 << sb["size"]), True, "dec")]
-        return [tok("id", rng.choice(sb["regs"]) if c < 0.92 else rng.choice(REGS), first)]
+        t = tok("id", rng.choice(sb["regs"]) if c < 0.92 else rng.choice(REGS), first)
+        t["lit"] = True
+        return [t]
     # expression operand
     if kind == "typed":
         ty, n = spec[1], spec[2]
@@ -242,7 +246,9 @@ def instantiate(rng, rule, ops, labels, consts):
                 toks += operand_tokens(rng, ops[oi], labels, consts, pending_ws or not toks)
                 oi += 1
             else:
-                toks.append(tok("id" if s[0].isalpha() else "op", s, pending_ws or not toks))
+                t = tok("id" if s[0].isalpha() else "op", s, pending_ws or not toks)
+                t["lit"] = True
+                toks.append(t)
             pending_ws = False
         else:
             while oi < len(ops) and ops[oi][0] == "reg":
@@ -347,7 +353,7 @@ def render_pattern(pat):
         if part["p"] == "ws":
             out.append(" ")
         elif part["p"] == "lit":
-            out.append(part["lc"])
+            out.append(part.get("shown", part["lc"]))
         else:
             ty = {"none": "", "u": ": u%d" % part["n"], "s": ": s%d" % part["n"], "i": ": i%d" % part["n"],
                   "sub": ": " + part["sub"]}[part["ty"]]
@@ -355,7 +361,7 @@ def render_pattern(pat):
     return "".join(out)
 
 
-def render_program(P, rule_order=None, case=None):
+def render_program(P, rule_order=None, case=None, instr_renderer=None):
     blocks = {}
     order = []
     rules = list(P["rules"])
@@ -381,7 +387,7 @@ def render_program(P, rule_order=None, case=None):
         elif k == "const":
             out.append("%s%s = %s\n" % ("." * it["lvl"], it["name"], genexpr.render(it["e"])))
         elif k == "instr":
-            out.append("    " + render_tokens(it["toks"]) + "\n")
+            out.append("    " + (instr_renderer or render_tokens)(it["toks"]) + "\n")
         elif k == "data":
             out.append("    #d%s %s\n" % ("" if it["w"] < 0 else str(it["w"]), ", ".join(genexpr.render(e) for e in it["es"])))
         elif k == "res":
@@ -391,3 +397,95 @@ def render_program(P, rule_order=None, case=None):
         elif k == "addr":
             out.append("    #addr %d\n" % it["n"])
     return "".join(out)
+
+
+# ---------------------------------------------------------------------------
+# C07: re-renderings of a program that must not change its meaning
+
+import copy
+
+
+def recase(rng, s):
+    return "".join(c.upper() if rng.random() < 0.5 else c.lower() for c in s)
+
+
+def rename_ast(e, ren):
+    if isinstance(e, dict):
+        if e.get("k") == "var" and e.get("lvl", 0) == 0:
+            p = list(e["path"])
+            if p and p[0] in ren:
+                p[0] = ren[p[0]]
+            return dict(e, path=p)
+        return {k: rename_ast(v, ren) for k, v in e.items()}
+    if isinstance(e, list):
+        return [rename_ast(x, ren) for x in e]
+    return e
+
+
+def rerender(rng, P):
+    """-> (abstract program of the rendering, decoration for the text renderer)"""
+    Q = copy.deepcopy(P)
+    # consistent renaming of global symbols
+    ren = {}
+    if rng.random() < 0.6:
+        for it in Q["items"]:
+            if it["k"] in ("label", "const") and it["lvl"] == 0:
+                ren[it["name"]] = it["name"] + rng.choice(["_x", "Z", "_renamed"])
+    for it in Q["items"]:
+        if it["k"] in ("label", "const") and it["lvl"] == 0 and it["name"] in ren:
+            it["name"] = ren[it["name"]]
+        it["e"] = rename_ast(it["e"], ren)
+        it["es"] = rename_ast(it["es"], ren)
+        prev_dot = False
+        for t in it["toks"]:
+            if t["k"] == "id" and not t.get("lit") and not prev_dot and t["s"] in ren:
+                t["s"] = ren[t["s"]]
+                t["lc"] = t["s"].lower()
+                t["c0"] = t["s"][:1].lower()
+            prev_dot = t["k"] == "op" and t["s"] == "."
+        # letter case of literal pattern tokens, extra blanks
+        for t in it["toks"]:
+            if t.get("lit") and t["k"] == "id" and rng.random() < 0.6:
+                t["s"] = recase(rng, t["s"])
+            if not t["b"] and rng.random() < 0.3:
+                t["b"] = True
+    # rule order and partition into blocks (sub-rule blocks stay intact, in place)
+    top = [r for r in Q["rules"] if not r["sub"]]
+    subs = [r for r in Q["rules"] if r["sub"]]
+    rng.shuffle(top)
+    names = ["cpu", "ext", "third"]
+    nb = rng.choice([1, 2, 3])
+    for r in top:
+        r["block"] = names[rng.randrange(nb)]
+    # pattern literals may be written in any case too
+    for r in top + subs:
+        for part in r["pat"]:
+            if part["p"] == "lit" and rng.random() < 0.3:
+                part["shown"] = recase(rng, part["lc"])
+    Q["rules"] = (subs + top) if rng.random() < 0.5 else (top + subs)
+    decor = {"comments": rng.random() < 0.7, "tabs": rng.random() < 0.5, "seed": rng.randrange(1 << 30)}
+    return Q, decor
+
+
+def render_program_decorated(P, decor):
+    """text of a rendering: on INSTRUCTION lines blanks may be tabs or several
+    blanks, and block comments (after a blank) and trailing comments are added:
+    pure decoration of the lines the property talks about"""
+    rng = random.Random(decor["seed"])
+
+    def deco(toks):
+        out = []
+        for i, t in enumerate(toks):
+            sp = "".join(t["text"]) if t["k"] == "num" else t["s"]
+            if t["b"] and i > 0:
+                s = rng.choice([" ", "  ", "\t", " \t "]) if decor["tabs"] else " "
+                if decor["comments"] and rng.random() < 0.25:
+                    s = s + ";* c *; "
+                out.append(s)
+            out.append(sp)
+        text = "".join(out)
+        if decor["comments"] and rng.random() < 0.5:
+            text += rng.choice([" ; trailing", " ;comment ld r1", "\t; x"])
+        return text
+
+    return render_program(P, instr_renderer=deco)
